@@ -28,7 +28,7 @@ def eval_term(t, reg, l, b):
     raise core.MachineryError("unknown term %r" % (t,))
 
 
-def run_history(chk, sc, cfgseed, nlev):
+def run_history(chk, sc, cfgseed, nlev, consumers=False):
     from amr_kitchen import PlotfileCooker
     from amr_kitchen.chef import Chef
     from amr_kitchen.colander import Colander
@@ -121,6 +121,167 @@ def run_history(chk, sc, cfgseed, nlev):
                         if not (compare.same_float(hv, tv) or hv == tv):
                             return "step %d %s: level %d box %d %s[%r] = %r, extremum of the data %r" % (
                                 i + 1, h["op"], l, b, which, exp["fields"][j], hv, tv)
+    if consumers and sc["hist"]:
+        return consumers_agree(chk, d, sc["hist"][-1]["out"], cfg_, cfgseed)
+    return None
+
+
+def plain_twin(d, name, cfg_):
+    """A plotfile with the SAME contents as d/name (fields, mesh, time, every array) written afresh by gamma in its plainest
+    layout (one binary file per level, header order): what every reading tool must treat exactly like the pipeline's output."""
+    X = os.path.join(d, name)
+    A = alpha.abstract(X)
+    H = A["hdr"]
+    arrays = {}
+    levels = []
+    for l, Cl in enumerate(A["lev"]):
+        boxes = []
+        for b, (idx, (fn, off)) in enumerate(zip(Cl["idx"], Cl["fod"]), 1):
+            boxes.append({"lo": list(idx[0]), "hi": list(idx[1])})
+            fab = alpha.read_fab_at(os.path.join(X, Cl["dir"], fn), off)
+            for fi, arr in enumerate(fab["arrays"], 1):
+                arrays[(l, b, fi)] = np.array(arr)
+        levels.append({"boxes": boxes, "file": [1] * len(boxes), "disk": {"1": list(range(1, len(boxes) + 1))}})
+    dom = [h - a + 1 for a, h in zip(*H["domains"][0])] if H.get("domains") else None
+    ap = {"src": "twin", "ndims": H["ndims"], "fields": list(H["fields"]), "time": H["time"], "dom": dom, "levels": levels}
+    Y = os.path.join(d, name + "_twin")
+    # the twin's geometry is the one X's header states (a converted checkpoint's differs from the generated inputs' in its last digits)
+    import copy
+    cfg_ = copy.copy(cfg_)
+    cfg_.origin = tuple(list(H["geo_lo"]) + [0.0] * (3 - len(H["geo_lo"])))
+    cfg_.dx0 = tuple(list(H["dx"][0]) + [1.0] * (3 - len(H["dx"][0])))
+    gamma.write_plotfile(Y, ap, cfg_, values=lambda lv, b, fi, box: arrays[(lv, b, fi)].reshape(gamma.box_shape(box), order="F"))
+    return Y
+
+
+def consumers_agree(chk, d, name, cfg_, cfgseed):
+    """C14, second half: the pipeline's output as an INPUT of the reading tools.  Each tool must give, on the pipeline's output,
+    exactly what it gives on a plain plotfile with the same contents (the twin): same values, or the same refusal."""
+    import sys
+    from amr_kitchen import PlotfileCooker
+    from amr_kitchen.mandoline import Mandoline
+    from amr_kitchen.pestle import volume_integral
+    X = os.path.join(d, name)
+    try:
+        Y = plain_twin(d, name, cfg_)
+    except Exception as e:
+        raise core.MachineryError("cannot write the plain twin of %s: %r" % (name, e))
+
+    def norm(x):
+        if isinstance(x, dict):
+            return {k: norm(v) for k, v in sorted(x.items())}
+        if isinstance(x, (list, tuple)):
+            return [norm(v) for v in x]
+        if isinstance(x, np.ndarray):
+            return np.asarray(x)
+        if isinstance(x, (float, np.floating)):
+            return float(x)
+        if isinstance(x, (int, np.integer, str, bool)) or x is None:
+            return x
+        return repr(type(x))
+
+    def same(a, b, path="$"):
+        """None if equal up to 1e-9 (header numbers of the two directories may differ in their last digits), else where."""
+        if isinstance(a, dict) and isinstance(b, dict):
+            if sorted(a) != sorted(b):
+                return "%s: keys %r != %r" % (path, sorted(a), sorted(b))
+            for k in a:
+                r = same(a[k], b[k], "%s.%s" % (path, k))
+                if r:
+                    return r
+            return None
+        if isinstance(a, list) and isinstance(b, list):
+            if len(a) != len(b):
+                return "%s: length %d != %d" % (path, len(a), len(b))
+            for i, (x, y) in enumerate(zip(a, b)):
+                r = same(x, y, "%s[%d]" % (path, i))
+                if r:
+                    return r
+            return None
+        if isinstance(a, np.ndarray) and isinstance(b, np.ndarray):
+            if a.shape != b.shape or a.dtype != b.dtype:
+                return "%s: array %r %s != %r %s" % (path, a.shape, a.dtype, b.shape, b.dtype)
+            if a.dtype.kind == "f":
+                ok = np.isclose(a, b, rtol=1e-9, atol=1e-9 * float(np.nanmax(np.abs(b))) if b.size and np.isfinite(b).any() else 0.0, equal_nan=True)
+                if not ok.all():
+                    k = tuple(int(i) for i in np.argwhere(~ok)[0])
+                    return "%s: %d of %d values differ, e.g. at %r: %r != %r" % (path, int((~ok).sum()), a.size, k, float(a[k]), float(b[k]))
+                return None
+            return None if np.array_equal(a, b) else "%s: arrays differ" % path
+        if isinstance(a, float) and isinstance(b, float):
+            if a == b or (a != a and b != b) or abs(a - b) <= 1e-9 * max(abs(a), abs(b)):
+                return None
+            return "%s: %r != %r" % (path, a, b)
+        return None if (type(a) is type(b) and a == b) else "%s: %r != %r" % (path, a, b)
+
+    def both(label, fn):
+        res = []
+        for p in (X, Y):
+            try:
+                # (numpy.empty poisoned with one value: the generated level-0 boxes need not cover the domain, and what a tool
+                # shows where there is no data must at least be the same for the two directories)
+                with shims.pool_shim(shims.Scheduler()), shims.poison(5.5e299), core.quiet():
+                    res.append(("ok", norm(fn(p))))
+            except SystemExit as e:
+                res.append(("exit", repr(e.code)))
+            except Exception as e:
+                res.append(("exc", type(e).__name__))
+        if res[0][0] != res[1][0]:
+            return "%s on the pipeline's output %s: %s; on a plain plotfile with the same contents: %s" % (
+                label, name, res[0][0] + (" " + str(res[0][1]) if res[0][0] != "ok" else ""), res[1][0] + (" " + str(res[1][1]) if res[1][0] != "ok" else ""))
+        diff = same(res[0][1], res[1][1]) if res[0][0] == "ok" else (None if res[0][1] == res[1][1] else "%r != %r" % (res[0][1], res[1][1]))
+        if diff:
+            return "%s gives another result on the pipeline's output %s than on a plain plotfile with the same contents: %s" % (label, name, diff)
+        return None
+    H = alpha.parse_header(X)
+    f0 = H["fields"][cfgseed % len(H["fields"])]
+
+    def reader(p):
+        pck = PlotfileCooker(p, maxmins=True)
+        return {"time": pck.time, "dx": [list(map(float, x)) for x in pck.dx], "lo": list(map(float, pck.geo_low)), "hi": list(map(float, pck.geo_high)),
+                "grid": [list(map(int, g)) for g in pck.grid_sizes], "fields": list(pck.fields), "first": pck[f0][0][0], "all": pck[:][pck.limit_level][-1]}
+
+    def mand(p):
+        # a plane in general position (not on a face or a cell centre, where the last digits of the two headers' numbers decide)
+        cn = cfgseed % 3
+        pos = H["geo_lo"][cn] + (H["geo_hi"][cn] - H["geo_lo"][cn]) * 0.3713
+        out = Mandoline(p, fields=[f0, "grid_level"], serial=True, verbose=0).slice(normal=cn, pos=pos, fformat="return")
+        return {k: np.asarray(v) for k, v in out.items() if isinstance(v, np.ndarray)}
+
+    def pestle(p):
+        return volume_integral(PlotfileCooker(p, ghost=True), f0)
+
+    def whip(p):
+        from amr_kitchen.whip import cli
+        o = p + "_grid"
+        old = sys.argv
+        sys.argv = ["whip", "-v", f0, "-o", o, "-y", p]
+        try:
+            cli.main()
+        finally:
+            sys.argv = old
+        return np.load(o + ".npy")
+
+    def point(p):
+        pck = PlotfileCooker(p)
+        mid = [float(a + (b - a) * 0.37) for a, b in zip(pck.geo_low, pck.geo_high)]
+        return pck[f0](*mid)
+
+    def menu(p):
+        import io
+        from amr_kitchen.menu.menu import Menu
+        so = sys.stdout
+        sys.stdout = io.StringIO()
+        try:
+            Menu(plt_file=p, min_max=True)
+            return sys.stdout.getvalue().replace(p, "<plt>")
+        finally:
+            sys.stdout = so
+    for label, fn in (("the reader", reader), ("mandoline", mand), ("pestle", pestle), ("whip", whip), ("a point query", point), ("menu", menu)):
+        v = both(label, fn)
+        chk.executed("consumer/%s" % label.split()[-1], True)
+        if v:
+            return v
     return None
 
 
@@ -161,7 +322,7 @@ def run(chk, replay):
     chk.exhaustive = len(chosen) == len(scenarios)
     for sc in chosen:
         cfgseed = chk.rng.randrange(1 << 30)
-        v = run_history(chk, sc, cfgseed, nlev)
+        v = run_history(chk, sc, cfgseed, nlev, consumers=(len(chk.sigs) % 5 == 0 or chk.tier == "thorough"))
         sigs = util.sig_str(sc["sig"])
         triv = len(sc["hist"]) == 1 and sc["hist"][0]["op"] == "colander" and sc["hist"][0]["vars"] == ["all"]
         chk.executed(sigs, not triv, sample=sc["hist"])
